@@ -78,7 +78,7 @@ def run(ctx):
                 for mask_ in range(1, 1 << len(c['n'])):
                     if len(c['n']) > 3 and mask_ not in (1, (1 << len(c['n'])) - 1, 5):
                         continue
-                    ineg = [ik - nk if (mask_ >> k_) & 1 else ik for k_, (ik, nk) in enumerate(zip(c['i'], c['n']))]
+                    ineg = [ik - nk if ((mask_ >> k_) & 1 and ik >= 0) else ik for k_, (ik, nk) in enumerate(zip(c['i'], c['n']))]
                     for form in (list(ineg), np.array(ineg)):
                         Yn = teneva.delta(c['n'], form, v)
                         ctx.check(F.is_wellformed(Yn, c['n']) and close(F.dense(Yn), ref), 'delta:value',
